@@ -59,7 +59,7 @@ def corpus() -> list:
 
 
 def counts(tier: str):
-    return (300, 75.0) if tier == 'quick' else (20000, 900.0)
+    return (1500, 75.0) if tier == 'quick' else (40000, 900.0)
 
 
 def gen_kind(rng, idx: int) -> dict:
@@ -87,7 +87,8 @@ def generate(rng, tier: str, index: int) -> dict:
             g = rng.choice(GENERATORS)
             if state == 'await-open' and rng.chance(0.6):
                 g = 'open-fuzz'
-            items.append({'gen': g, 'seed': rng.randint(1, 1 << 40), 'size': rng.choice([0, 1, 3, 16, 64, 200, 1000, 4000, 4077, 30000, 65000])})
+            items.append({'gen': g, 'seed': rng.randint(1, 1 << 40), 'size': rng.choice([0, 1, 3, 16, 64, 200, 1000, 4000, 4077, 30000, 65000]),
+                          'slow': rng.choice([None, None, None, None, [rng.randint(1, 18), rng.choice([0.12, 0.2, 0.35])], [19 + rng.randint(1, 40), rng.choice([0.12, 0.25])]])})
         scripts.append({'state': state, 'items': items})
     return {'micro_seed': rng.randint(1, 1 << 48), 'knobs': knobs(rng), 'kinds': kinds, 'scripts': scripts, 'gap': rng.choice([0.02, 0.1, 0.3]), 'split_p': rng.choice([0.0, 0.3])}
 
@@ -396,7 +397,24 @@ def build(item: dict, kind: dict) -> tuple[int, bytes, bool]:
             return 6, (rng.choice([1, 2, 3, 4, 5, 6, 7, 8, 65535, 0]).to_bytes(2, 'big') + rng.choice([0, 2, 4, 9, 65535]).to_bytes(2, 'big') + rb(rng, rng.choice([0, 2, 4, 9, 40, size])))[:mx], False
         return 4, rb(rng, rng.choice([0, 1, 5])), False
     if g == 'valid-unusual':
-        style = rng.choice(['many-unknown', 'max-size', 'empty-values', 'wd-only-max'])
+        style = rng.choice(['many-unknown', 'max-size', 'empty-values', 'wd-only-max', 'long-path', 'long-path'])
+        if style == 'long-path':
+            # AS paths whose (merged) sequence has 254, 255, 256 or 510 AS numbers
+            total = rng.choice([254, 255, 255, 256, 510, 511])
+            first = [kind['peer_as']] if kind['peer_as'] != 65001 else []
+            lp = R.attribute(R.A_LOCAL_PREF, (100).to_bytes(4, 'big')) if kind['peer_as'] == 65001 else b''
+            if kind['asn4'] or rng.chance(0.3):
+                seq = first + [64512 + (i % 1000) for i in range(total - len(first))]
+                path = R.attribute(R.A_AS_PATH, R.enc_as_path([(2, seq)], kind['asn4']))
+            else:
+                # a 2-byte session: AS_PATH with AS_TRANS + AS4_PATH, the merge gives `total` AS numbers
+                n4 = rng.choice([1, 10, 100, total - len(first) - 1])
+                n4 = max(1, min(n4, total - len(first)))
+                new = [4200000000 + i for i in range(n4)]
+                old = first + [64512 + (i % 1000) for i in range(total - len(first) - n4)]
+                path = R.attribute(R.A_AS_PATH, R.enc_as_path([(2, old + [23456] * n4)], False)) + R.attribute(R.A_AS4_PATH, R.enc_as_path([(2, new)], True))
+            attrs = R.attribute(R.A_ORIGIN, b'\x00') + path + R.attribute(R.A_NEXT_HOP, bytes([10, 0, 0, 9])) + lp
+            return 2, R.build_update(attrs=attrs, nlri=v4nlri(kind))[19:], True
         if style == 'many-unknown':
             attrs = base_attrs(kind)
             n = rng.choice([100, 215, 215])
@@ -589,7 +607,16 @@ def execute(plan: dict) -> dict:
         rec = {'item': item, 'type': mtype, 'len': len(body), 'valid': valid, 'sess': sess, 'at': w.loop.mono, 'benign': None}
         sent[i].append(rec)
         probes['bodies'] += 1
-        sess.send(R.message(mtype, body))
+        msg = R.message(mtype, body)
+        slow = item.get('slow')
+        extra = 0.0
+        if slow and len(msg) > slow[0]:
+            # the message arrives in two pieces further apart than the peer loop's 0.1 s read poll
+            sess.send(msg, cuts=[slow[0]], delays=[0.0, slow[1]])
+            extra = slow[1]
+            probes['slow_split'] = probes.get('slow_split', 0) + 1
+        else:
+            sess.send(msg)
         if sc['state'] == 'established':
 
             def fire_benign(rec=rec) -> None:
@@ -599,8 +626,8 @@ def execute(plan: dict) -> dict:
                 rec['benign'] = prefix
                 sess.send(msg)
 
-            w.after(plan['gap'], fire_benign)
-            w.after(plan['gap'] * 2, lambda: step(i, sess))
+            w.after(plan['gap'] + extra, fire_benign)
+            w.after(plan['gap'] * 2 + extra, lambda: step(i, sess))
 
     for i, sp in enumerate(speakers):
         st = plan['scripts'][i]['state']
@@ -672,6 +699,9 @@ def judge(w, plan, kinds, speakers, sent, h, unpack_log, violations, probes) -> 
         probes['sessions'] = probes.get('sessions', 0) + len(sp.sessions)
         for sess in sp.sessions:
             mine_sent = [r for r in sent[i] if r['sess'] is sess]
+            if sess.state == 'closed' and sess.closed_by != 'speaker' and mine_sent and all(r['valid'] for r in mine_sent) and plan['scripts'][i]['state'] == 'established':
+                violations.append(viol('C03/valid-message-refused', f'session {i}.{sess.index} only received messages valid by construction ({[r["item"]["gen"] + ("/slow" if r["item"].get("slow") else "") for r in mine_sent][:4]}) and was ended with NOTIFICATION {sess.notification_rx[:2] if sess.notification_rx else None}', gen=mine_sent[-1]['item']['gen']))
+                return
             if sess.state == 'closed':
                 n = sess.notification_rx
                 if n is None:
